@@ -11,32 +11,75 @@
 #include <unistd.h>
 #include <fcntl.h>
 #include <iostream>
+#include <map>
 
 static std::string h_mdvgm(const std::string& arg)
 {
 	Song song;
 	std::vector<std::string> rest = build_song(song, split_ws(arg));
+	// W<name>=<hex>: files for PCM instruments, written to the scratch directory; a "pcm" tag
+	// naming one of them gets the path of the file written
+	std::map<std::string, std::string> files;
+	struct Cleanup { std::vector<std::string> paths; ~Cleanup() { for(auto& p : paths) unlink(p.c_str()); } } cleanup;
 	for(const std::string& t : rest)
 	{
-		if(t.size() > 1 && t[0] == '@')
+		if(t.size() > 1 && t[0] == 'W')
+		{
+			size_t eq = t.find('=');
+			if(eq == std::string::npos) return "bad-request";
+			std::string name = t.substr(1, eq - 1);
+			std::vector<uint8_t> b = bytes_of_hex(t.substr(eq + 1));
+			const char* td = getenv("VERIF_TMPDIR");
+			char path[600];
+			snprintf(path, sizeof path, "%s/mdvgm_%d_%s", td ? td : "/tmp", (int)getpid(), name.c_str());
+			FILE* fp = fopen(path, "wb");
+			if(!fp) return "bad-request tmpfile";
+			fwrite(b.data(), 1, b.size(), fp);
+			fclose(fp);
+			files[name] = path;
+			cleanup.paths.push_back(path);
+		}
+	}
+	bool has_date = false, has_comment = false;
+	for(const std::string& t : rest)
+	{
+		if(t.size() > 1 && (t[0] == 'W' || t[0] == 'X')) continue;
+		if(t.size() > 1 && t[0] == '#')
+		{
+			size_t eq = t.find('=');
+			if(eq == std::string::npos) return "bad-request";
+			std::string key = t.substr(0, eq);
+			std::string h = t.substr(eq + 1);
+			std::vector<uint8_t> b = (h == "-") ? std::vector<uint8_t>() : bytes_of_hex(h);
+			song.set_tag(key, std::string(b.begin(), b.end()));
+			if(key == "#vgmdate") has_date = true;
+			if(key == "#comment") has_comment = true;
+		}
+		else if(t.size() > 1 && t[0] == '@')
 		{
 			size_t eq = t.find('=');
 			if(eq == std::string::npos) return "bad-request";
 			std::string key = t.substr(0, eq);
 			std::string v = t.substr(eq + 1);
 			size_t i = 0;
+			int word = 0;
+			bool pcm = false;
 			while(i <= v.size())
 			{
 				size_t j = v.find(',', i);
 				if(j == std::string::npos) j = v.size();
-				song.add_tag(key, v.substr(i, j - i));
+				std::string w = v.substr(i, j - i);
+				if(word == 0 && w == "pcm") pcm = true;
+				if(word == 1 && pcm && files.count(w)) w = files[w];
+				song.add_tag(key, w);
 				i = j + 1;
+				word++;
 			}
 		}
 		else return "bad-request";
 	}
-	song.set_tag("#vgmdate", "2000-01-01");
-	song.set_tag("#comment", "c07");
+	if(!has_date) song.set_tag("#vgmdate", "2000-01-01");
+	if(!has_comment) song.set_tag("#comment", "c07");
 	std::vector<uint8_t> b;
 	// the driver prints progress ("set tempo to ...") on stdout: park fd 1 during the export
 	fflush(stdout);
@@ -61,3 +104,6 @@ static std::string h_mdvgm(const std::string& arg)
 	return buf + hex_of(b);
 }
 HANDLER("mdvgm", h_mdvgm);
+// same request, judged for C08
+static std::string h_c08song(const std::string& arg) { return h_mdvgm(arg); }
+HANDLER("c08song", h_c08song);
